@@ -347,7 +347,7 @@ with parse_varname (fuel : nat) (bt : bool) (s : str) {struct fuel} : pres word 
       end
   end.
 
-Definition parse_fuel (s : str) : nat := 4 * length s + 16.
+Definition parse_fuel (s : str) : nat := 8 * length s + 16.
 
 Definition parse (s : str) : pres script := parse_script (parse_fuel s) false s [].
 
